@@ -392,7 +392,13 @@ def project_tetra_to_origin(tetra):
             if ba * da_ba + bd * ba_aa - bb * da_aa <= 0:
                 if da_aa <= 0:
                     if ba * ba_ca + bb * ca_aa - bc * ba_aa <= 0:
-                        ray, simplex_len = region_abc(tetra, a_index, b_index, c_index, a, b, c, a_cross_b)
+                        if ca * ba_ca + cb * ca_aa - cc * ba_aa <= 0:
+                            if ca * ca_da + cc * da_aa - dc * ca_aa <= 0:
+                                ray, simplex_len = region_acd(tetra, a_index, c_index, d_index, a, c, d, a_cross_c)
+                            else:
+                                ray, simplex_len = region_ac(tetra, a_index, c_index, a, c, ca_aa)
+                        else:
+                            ray, simplex_len = region_abc(tetra, a_index, b_index, c_index, a, b, c, a_cross_b)
                     else:
                         ray, simplex_len = region_ab(tetra, a_index, b_index, a, b, ba_aa)
                 else:
@@ -425,13 +431,16 @@ def project_tetra_to_origin(tetra):
                 if ba * ba_ca + bb * ca_aa - bc * ba_aa <= 0:
                     if ca * ba_ca + cb * ca_aa - cc * ba_aa <= 0:
                         if ca * ca_da + cc * da_aa - dc * ca_aa <= 0:
-                            ray, simplex_len = region_acd(tetra, a_index, c_index, d_index, a, c, d, a_cross_c)
+                            if da * ca_da + dc * da_aa - dd * ca_aa <= 0:
+                                ray, simplex_len = region_ad(tetra, a_index, d_index, a, d, da_aa)
+                            else:
+                                ray, simplex_len = region_acd(tetra, a_index, c_index, d_index, a, c, d, a_cross_c)
                         else:
                             ray, simplex_len = region_ac(tetra, a_index, c_index, a, c, ca_aa)
                     else:
                         ray, simplex_len = region_abc(tetra, a_index, b_index, c_index, a, b, c, a_cross_b)
                 else:
-                    ray, simplex_len = region_ad(tetra, a_index, d_index, a, d, da_aa)
+                    ray, simplex_len = region_ab(tetra, a_index, b_index, a, b, ba_aa)
             else:
                 if d.dot(a_cross_c) <= 0:
                     if ca * ca_da + cc * da_aa - dc * ca_aa <= 0:
@@ -470,7 +479,7 @@ def project_tetra_to_origin(tetra):
                         else:
                             ray, simplex_len = region_ac(tetra, a_index, c_index, a, c, ca_aa)
                     else:
-                        if c.dot(a_cross_b):
+                        if c.dot(a_cross_b) <= 0:
                             ray, simplex_len = region_abc(tetra, a_index, b_index, c_index, a, b, c, a_cross_b)
                         else:
                             ray, simplex_len = region_acd(tetra, a_index, c_index, d_index, a, c, d, a_cross_c)
